@@ -71,7 +71,7 @@ func genFileSrc(r *core.Rand, tier string) *FileSrc {
 // ---------------------------------------------------------------------------
 // Foreign-file generator (grammar of DESIGN appendix B).
 
-var alienTypes = []string{"XFIH", "XFKM", "MThx", "mtrk", "RIFF", "\x00\x00\x00\x00", "MTr\xff", "data"}
+var alienTypes = []string{"XFIH", "XFKM", "MThx", "mtrk", "RIFF", "\x00\x00\x00\x00", "MTr\x7f", "data"}
 
 func genAlien(r *core.Rand) ref.FChunk {
 	n := r.PickInt(0, 1, 2, 7, 8, 9, 50, 300)
@@ -122,6 +122,9 @@ func genForeign(r *core.Rand, tier string) *ref.FFile {
 		eot := ref.FEvent{Event: eotEvent(genDelta(r, false))}
 		if r.Chance(1, 8) {
 			eot.DeltaPad = r.Range(1, 3)
+		}
+		if r.Chance(1, 8) {
+			eot.LenPad = r.Range(1, 3) // FF 2F 80 00: a non-minimal zero length
 		}
 		tr.Events = append(tr.Events, eot)
 		f.Chunks = append(f.Chunks, tr)
